@@ -18,7 +18,12 @@ impl<'a> Visitor<'a> for DefaultValuesOfCorrectType {
         ctx: &mut VisitorContext<'a>,
         variable_definition: &'a Positioned<VariableDefinition>,
     ) {
-        if let BaseType::Named(vtype_name) = &variable_definition.node.var_type.node.base
+        // the innermost named type of `[[T]!]` must exist before the default value is checked against it
+        let mut base = &variable_definition.node.var_type.node.base;
+        while let BaseType::List(inner) = base {
+            base = &inner.base;
+        }
+        if let BaseType::Named(vtype_name) = base
             && !ctx.registry.types.contains_key(vtype_name.as_str())
         {
             ctx.report_error(
